@@ -1,8 +1,9 @@
 ---------------------------- MODULE MC_SepProcess ----------------------------
 (* Leg 1 for C11: behaviours of the child (cfg files cannot write records) *)
 EXTENDS SepProcess
-MCBehaviours == {[act |-> "any", arg |-> 0]}
-                \cup {[act |-> a, arg |-> 0] : a \in {"pass", "fail", "stop-twice"}}
-                \cup {[act |-> "exit", arg |-> c] : c \in ExitCodes \cup {256}}
-                \cup {[act |-> a, arg |-> s] : a \in {"signal", "signal-then-fail"}, s \in Signals}
+CONSTANT Reps   \* numbers of failures reported by plugin actions about one test
+MCBehaviours == {[act |-> "any", arg |-> 0, rep |-> 0]}
+                \cup {[act |-> a, arg |-> 0, rep |-> r] : a \in {"pass", "fail", "stop-twice"}, r \in Reps}
+                \cup {[act |-> "exit", arg |-> c, rep |-> r] : c \in ExitCodes \cup {256}, r \in Reps}
+                \cup {[act |-> a, arg |-> s, rep |-> r] : a \in {"signal", "signal-then-fail"}, s \in Signals, r \in Reps}
 =============================================================================
